@@ -53,6 +53,22 @@ fn law_table(out: &mut Out) {
                     }
                 }
             }
+            // the three uniform laws of `UnifLaws` (Props/C14Nuts.lean): for u in [0,1) and n >= 1,
+            // not (u < 0/n), u < n/n, not (u < min(1, 0/n)); n is cast the way the code casts counts (T::from(usize))
+            let one: $t = 1.0;
+            let us: Vec<$t> = vec![0.0, <$t>::MIN_POSITIVE, <$t>::EPSILON, 0.25, 0.5, 1.0 - <$t>::EPSILON / 2.0, 1.0 - <$t>::EPSILON];
+            let mut n: u64 = 1;
+            while n < (1u64 << 62) {
+                for m in [n, n + 1, 3 * n] {
+                    let nf = m as $t;
+                    let z = (0 as $t) / nf;
+                    let minone = if z < one { z } else { one };
+                    for &u in &us {
+                        ok &= !(u < z) && (u < nf / nf) && !(u < minone);
+                    }
+                }
+                n *= 2;
+            }
             out.count("predicate_evaluations");
             if !ok {
                 out.fail("laws", "C14:ieee-laws", "the IEEE special-value laws assumed by the theorems do not hold for native floats", 1, $name.to_string());
